@@ -17,6 +17,7 @@ from simkit.core import EventLog, Outcome, Violation, stream_rng, stable_hash
 ID = "C15"
 LEVEL = "exploration"
 TIERS = {"quick": {"runs": 150000, "wall": 150}, "thorough": {"runs": 1500000, "wall": 1500}}
+HASHSEED_RUNS = {"quick": 300, "thorough": 3000}    # S7: identical event logs under other hash seeds
 RULE = ("world = well-formed changelog from a small grammar (1..4 blocks); stream faults = "
         "<= 6 of drop / duplicate / insert-from-class-table (header-like, trailer-like with one "
         "space or without details, bare ' --', junk, vim:/Local variables: mode lines, "
